@@ -187,7 +187,13 @@ def mon_c14(k, domain, bind_port=None, wildcard=False):
             continue
         if kind == "recv":
             d = kw["data"]
-            if _is_raw(d) or kw["src"] == ("127.0.0.1", bind_port):
+            if _is_raw(d):
+                # a raw-mode login/data/ping replaces the session's stored query: a DNS query that was
+                # being held back is forgotten (never answered), which C14 permits - it is no longer "held"
+                if len(d) >= 4:
+                    held.pop(d[3] & 0x0F, None)
+                continue
+            if kw["src"] == ("127.0.0.1", bind_port):
                 continue
             try:
                 m = proto.parse_msg(d)
